@@ -17,15 +17,17 @@
 EXTENDS Naturals, Sequences, FiniteSets, TLC, SequencesExt, Json
 
 \* P1x: a profile registered under P1's name with P1's properties but WITHOUT macros of its own
-Custom == {"P1", "P2", "P3", "P4", "P1x"}
+\* P5 redefines a TOKEN-level macro (uri), which the built-in profiles use as well
+Custom == {"P1", "P2", "P3", "P4", "P1x", "P5"}
 Base(p) == IF p = "P1x" THEN "P1" ELSE p
 \* macros defined by each profile: macro name -> literal accepted by that version
 MacrosOf(p) == CASE p = "P1" -> [integer |-> "p1i", mynew |-> "p1n"]
                  [] p = "P2" -> [integer |-> "p2i", absolute_size |-> "p2s"]
                  [] p = "P3" -> [mynew |-> "p3n"]
+                 [] p = "P5" -> [uri |-> "p5u"]
                  [] p = "B"  -> [absolute_size |-> "xx-large"]
                  [] OTHER    -> [none |-> "none"]
-BaseLit(m) == CASE m = "integer" -> "7" [] OTHER -> "undefined"
+BaseLit(m) == CASE m = "integer" -> "7" [] m = "uri" -> "url(x)" [] OTHER -> "undefined"
 Defines(p, m) == m \in DOMAIN MacrosOf(p)
 \* the macro environment of a registry: the last registered definition wins, else the base definition
 EnvLit(names, m) ==
@@ -33,12 +35,13 @@ EnvLit(names, m) ==
     IN  IF ds = {} THEN BaseLit(m) ELSE MacrosOf(names[CHOOSE i \in ds : \A j \in ds : j <= i])[m]
 
 \* probes: id -> [owner profile, macro used]   (B.z is also redefined by P4 with the literal pattern "p4z")
-ProbeIds == {"P1.a", "P1.b", "P2.a", "P2.c", "P3.b", "P3.a", "P4.a", "B.z", "B.fs", "B.color", "none"}
+ProbeIds == {"P1.a", "P1.b", "P2.a", "P2.c", "P3.b", "P3.a", "P4.a", "P5.a", "B.z", "B.fs", "B.bg", "B.color", "none"}
 Owner(id) == CASE id \in {"P1.a", "P1.b"} -> "P1" [] id \in {"P2.a", "P2.c"} -> "P2" [] id \in {"P3.a", "P3.b"} -> "P3"
-               [] id = "P4.a" -> "P4" [] id \in {"B.z", "B.fs", "B.color"} -> "B" [] OTHER -> "nobody"
+               [] id = "P4.a" -> "P4" [] id = "P5.a" -> "P5" [] id \in {"B.z", "B.fs", "B.bg", "B.color"} -> "B" [] OTHER -> "nobody"
 MacroOf(id) == CASE id \in {"P1.a", "P2.a", "P3.a", "P4.a", "B.z"} -> "integer"
                  [] id \in {"P1.b", "P3.b"} -> "mynew"
                  [] id \in {"P2.c", "B.fs"} -> "absolute_size"
+                 [] id \in {"P5.a", "B.bg"} -> "uri"
                  [] OTHER -> "nomacro"
 Registered(names, p) == \E n \in Range(names) : Base(n) = p
 \* F: the set of probe literals a registry with these contents accepts for each probe
@@ -49,7 +52,7 @@ F(names, id) ==
     ELSE (IF Registered(names, Owner(id)) THEN {EnvLit(names, MacroOf(id))} ELSE {})
          \cup (IF id = "B.z" /\ Registered(names, "P4") THEN {"p4z"} ELSE {})
 PropsOf(p) == CASE p \in {"P1", "P1x"} -> {"p1-a", "p1-b"} [] p = "P2" -> {"p2-a", "p2-c"} [] p = "P3" -> {"p3-a", "p3-b"}
-                [] p = "P4" -> {"p4-a", "z-index"} [] p = "B" -> {"z-index", "font-size", "color"} [] OTHER -> {}
+                [] p = "P4" -> {"p4-a", "z-index"} [] p = "P5" -> {"p5-a"} [] p = "B" -> {"z-index", "font-size", "color", "background-image"} [] OTHER -> {}
 Known(names) == UNION {PropsOf(p) : p \in Range(names)}
 
 \* ---- reference semantics on contents ----------------------------------------------------------
@@ -69,11 +72,22 @@ StepFailing(pre, a, out, post) ==
     ELSE IF post.defaults # Ref(pre, a).defaults THEN "DefaultsAsRequested"
     ELSE "ok"
 
+\* which registered profile accepts a probe literal; "matching" = accepted by one of the DEFAULT profiles (all, when none is set)
+AcceptedBy(names, id, lit) ==
+    IF id = "B.z" THEN (IF Registered(names, "B") /\ lit = EnvLit(names, "integer") THEN {"B"} ELSE {})
+                       \cup (IF Registered(names, "P4") /\ lit = "p4z" THEN {"P4"} ELSE {})
+    ELSE IF lit \in F(names, id) THEN {Owner(id)} ELSE {}
+Matching(o, id, lit) == o.defaults = "none" \/ Base(o.defaults) \in AcceptedBy(o.names, id, lit)
+
 \* ---- the observation is a function of the contents -------------------------------------------------
 StateFailing(o) ==
     IF \E i \in 1..Len(o.versions) : ToSet(o.versions[i].accepted) # F(o.names, o.versions[i].id) THEN "VerdictsAreFunctionOfContents"
     ELSE IF ToSet(o.known) # Known(o.names) THEN "KnownNamesAreFunctionOfContents"
     ELSE IF \E i \in 1..Len(o.byprofile) : ToSet(o.byprofile[i].props) # PropsOf(o.byprofile[i].p) THEN "PropertiesByProfile"
     ELSE IF ~o.validateAgree THEN "ValidIffSomeProfileAccepts"
+    ELSE IF \E i \in 1..Len(o.explicit) : LET e == o.explicit[i] IN
+                e.out # "ok" \/ ~e.same \/ e.valid # (AcceptedBy(o.names, e.id, e.lit) # {}) \/ e.m # (Base(e.q) \in AcceptedBy(o.names, e.id, e.lit))
+         THEN "ExplicitProfilesArgumentSelectsThoseProfiles"
+    ELSE IF \E i \in 1..Len(o.matching) : o.matching[i].m # Matching(o, o.matching[i].id, o.matching[i].lit) THEN "MatchingFollowsTheDefaultProfiles"
     ELSE "ok"
 =============================================================================
